@@ -82,12 +82,16 @@ def fold(path, rec, tags_attr, var=None, handle=None, sink_call=None):
         ast.fix_missing_locations(new)
         return new
 
+    derived = {var} if var else set()  # locals whose value is built from the record string (`line = out + "\n"`)
     for e in path.events:
         if e.kind == "stmt" and isinstance(e.node, ast.Assign) and len(e.node.targets) == 1 and isinstance(e.node.targets[0], ast.Name):
             if norm(e.node.value) == base:
                 aliases.add(e.node.targets[0].id)
                 continue
             aliases.discard(e.node.targets[0].id)
+            if var and e.node.targets[0].id not in derived and ({x.id for x in ast.walk(e.node.value) if isinstance(x, ast.Name)} & derived) and b.env.get(var) is not None:
+                derived.add(e.node.targets[0].id)
+                b.track.add(e.node.targets[0].id)
         if e.kind == "loop":
             r = tag_loop_template(dealias(e.node), rec, tags_attr, var, handle)
             if r is not None:
@@ -107,7 +111,7 @@ def fold(path, rec, tags_attr, var=None, handle=None, sink_call=None):
             continue
         st = e.node
         if sink_call is not None:
-            x = sink_call(st)
+            x = sink_call(st, derived) if var else sink_call(st)
             if x is not None:
                 emitted = tmpl._merge(tmpl.of_expr(x, b._env()))
                 continue
@@ -116,9 +120,9 @@ def fold(path, rec, tags_attr, var=None, handle=None, sink_call=None):
             b.stmt(st)
         else:
             b.feed(e)
-        if var and isinstance(st, ast.Return) and st.value is not None and norm(st.value) == var:
-            emitted = b.env.get(var)
-        elif var and isinstance(st, ast.Return) and st.value is not None and b.env.get(var) and var in {x.id for x in ast.walk(st.value) if isinstance(x, ast.Name)}:
+        if var and isinstance(st, ast.Return) and st.value is not None and norm(st.value) in derived:
+            emitted = b.env.get(norm(st.value))
+        elif var and isinstance(st, ast.Return) and st.value is not None and b.env.get(var) and (derived & {x.id for x in ast.walk(st.value) if isinstance(x, ast.Name)}):
             emitted = tmpl._merge(tmpl.of_expr(dealias(st.value), b._env()))
         if var and isinstance(st, ast.Expr) and isinstance(st.value, (ast.Yield,)) and st.value.value is not None and norm(st.value.value) == var:
             emitted = b.env.get(var)
@@ -138,33 +142,47 @@ def _partial_result(callee):
     return any(isinstance(r, ast.Return) and isinstance(r.value, ast.Constant) and isinstance(r.value.value, bool) for r in ast.walk(callee.node))
 
 
+def candidate_template(n):
+    """template of an emitter candidate: a string expression, or a list display of columns that is joined with tabs"""
+    if isinstance(n, ast.List):
+        return tmpl.join_entries("\t", [("item", tmpl.of_expr(e), e) for e in n.elts], n)
+    return tmpl.of_expr(n)
+
+
 def find_emitters(ctx, rule):
     """All emitters of the program, located by shape: a template with >= 11 tab separators whose
     holes read >= 6 schema attributes of one record variable."""
     repo = ctx.repo
+    cached = getattr(repo, "_emitters_cache", None)
+    if cached is not None:
+        return cached
     schema, extras = gaf_schema(repo, rule)
     tags_attr = extras["tags_attr"]
-    from ..core import inline_access_aliases, inlined, tail_inlined, with_str_consts
+    from ..core import fold_consts, hoist_calls, inline_access_aliases, inlined, tail_inlined, with_str_consts
 
     out = []
     for f0 in repo.all_funcs():
-        recs0 = record_params(f0, schema) | ({"self"} if f0.cls == extras["class"] else set())
-        if not recs0:
+        if f0.module.name in ("gaftools.timer", "gaftools.__main__", "gaftools.cli"):
             continue
         body0 = [st for st in f0.node.body if not (isinstance(st, ast.Expr) and isinstance(st.value, ast.Constant))]
         if len(body0) == 1 and isinstance(body0[0], ast.Return) and repo.callers_of(f0):
             continue  # a single-return helper: analysed inlined into its callers
         # helpers of the same module are analysed inlined: statement-level (tail calls, procedures, result helpers) and
         # single-return helpers at expression level
-        f = inlined(repo, tail_inlined(repo, f0, keep=_partial_result))
+        f = fold_consts(inlined(repo, tail_inlined(repo, hoist_calls(repo, f0), keep=_partial_result)))
         f = inline_access_aliases(with_str_consts(f))
         recs = record_params(f, schema) | ({"self"} if f.cls == extras["class"] else set())
+        if not recs:
+            continue
+        # list displays that are later joined with tabs: cols = [...]; "\t".join(cols)
+        joined_names = {norm(c.args[0]) for c in walk_own(f.node) if isinstance(c, ast.Call) and isinstance(c.func, ast.Attribute) and c.func.attr == "join" and const_value(c.func.value) == "\t" and c.args and isinstance(c.args[0], ast.Name)}
+        list_joined = [st.value for st in walk_own(f.node) if isinstance(st, ast.Assign) and isinstance(st.value, ast.List) and isinstance(st.targets[0], ast.Name) and st.targets[0].id in joined_names]
         # candidate 12-column templates
         for n in walk_own(f.node):
             t = None
-            if isinstance(n, (ast.BinOp, ast.JoinedStr)) or (isinstance(n, ast.Call) and isinstance(n.func, ast.Attribute) and n.func.attr == "format" and isinstance(n.func.value, ast.Constant) and isinstance(n.func.value.value, str)):
+            if isinstance(n, (ast.BinOp, ast.JoinedStr)) or (isinstance(n, ast.Call) and isinstance(n.func, ast.Attribute) and n.func.attr == "format" and isinstance(n.func.value, ast.Constant) and isinstance(n.func.value.value, str)) or (isinstance(n, ast.List) and len(n.elts) >= 12 and n in list_joined):
                 try:
-                    t = tmpl.of_expr(n)
+                    t = candidate_template(n)
                 except tmpl.TemplateError:
                     t = None
             if not t:
@@ -189,6 +207,7 @@ def find_emitters(ctx, rule):
         if any(f is f2 and n is not n2 and any(x is n for x in ast.walk(n2)) for f2, _, n2 in out):
             continue
         uniq.append((f, rec, n))
+    repo._emitters_cache = (schema, extras, uniq)
     return schema, extras, uniq
 
 
@@ -235,7 +254,8 @@ def templates_of(ctx, f, rec, n, tags_attr, rule):
             region = loop.body
     sink = None
     if var:
-        def sink(s, var=var):
+        def sink(s, names=None, var=var):
+            names = names or {var}
             if isinstance(s, ast.Expr) and isinstance(s.value, ast.Call):
                 c = s.value
                 if isinstance(c.func, ast.Attribute) and c.func.attr in ("put", "append", "write") and c.args:
@@ -246,7 +266,7 @@ def templates_of(ctx, f, rec, n, tags_attr, rule):
                     for a in ast.walk(c):
                         if isinstance(a, ast.Call):
                             for arg in a.args:
-                                if var in {x.id for x in ast.walk(arg) if isinstance(x, ast.Name)} and not isinstance(arg, ast.Call):
+                                if (names & {x.id for x in ast.walk(arg) if isinstance(x, ast.Name)}) and not isinstance(arg, ast.Call):
                                     cand = arg
                     return cand
             return None
